@@ -192,7 +192,12 @@ func genC18(r *Rng, e *Emitter, n int) {
 					}
 					s, err = c18Encoders[d].Encode(g)
 				} else {
-					s, err = wkt.Marshal(g, wkt.EncodeOptionWithMaxDecimalDigits(d))
+					// the option may be given more than once (defaults, then an override): the last one counts
+					o := []wkt.EncodeOption{wkt.EncodeOptionWithMaxDecimalDigits(d)}
+					for k := len(in) % 3; k > 0; k-- {
+						o = append([]wkt.EncodeOption{wkt.EncodeOptionWithMaxDecimalDigits((d + 7*k) % 16)}, o...)
+					}
+					s, err = wkt.Marshal(g, o...)
 				}
 				if err != nil {
 					return sxErr(err)
